@@ -80,6 +80,17 @@ def _work(args):
                 os.makedirs(cd)
                 with open(cp, "wb") as f:
                     f.write(payload)
+            elif kind == "local-remove":
+                # tamper with the cache this very tree's scan wrote (same root, same files): remove one key
+                F.run_scan(root, [])
+                with open(cp) as f:
+                    d = json.load(f)
+                cur = d
+                for k in payload[:-1]:
+                    cur = cur[k]
+                cur.pop(payload[-1], None)
+                with open(cp, "w") as f:
+                    json.dump(d, f)
             elif kind == "file-instead-of-dir":
                 pass
             probs = []
@@ -90,10 +101,15 @@ def _work(args):
                 if rep != fresh:
                     probs.append("the report differs from a from-scratch scan")
                 with open(cp) as f:
-                    after = F.canonical(json.load(f))
+                    raw_after = json.load(f)
+                after = F.canonical(raw_after)
                 after["root"] = None
                 if after != fresh:
                     probs.append("the cache left behind is not the complete fresh report")
+                missing = [k for k in ("version", "uuid", "timestamp", "root", "codebase") if k not in raw_after] + \
+                          [f"codebase.{k}" for k in ("totals", "tree", "files") if k not in raw_after.get("codebase", {})]
+                if missing:
+                    probs.append(f"the cache left behind lacks {missing}")
                 # and a second scan succeeds, reusing everything
                 rep2, analysed2 = F.run_scan(root, [])
                 rep2["root"] = None
@@ -140,9 +156,14 @@ def run(tier, seed, replay=None):
             if ti in (1, 2) or tier != "quick":
                 sf = structural_faults(doc)
                 if tier == "quick":
-                    sf = sf[:: 3]
+                    # every removal of a key on the first two levels (version, uuid, timestamp, root, codebase and its
+                    # tree / totals / files: a reader may accept a cache without some of them), a third of the rest
+                    shallow = [f for f in sf if f[0].startswith("remove key") and f[0].count("/") <= 1]
+                    sf = shallow + [f for f in sf[:: 3] if f not in shallow]
                 for name, text in sf:
                     faults.append((name, "bytes", text.encode("utf8", "surrogatepass")))
+            for keys in (("timestamp",), ("uuid",), ("codebase", "tree"), ("codebase", "totals"), ("root",), ("version",), ("codebase", "files")):
+                faults.append((f"own cache with key {'/'.join(keys)} removed", "local-remove", keys))
             faults += [("cache directory without file", "dir-without-file", b""),
                        ("cache file without marker files", "dir-without-markers", data),
                        ("garbage without marker files", "dir-without-markers", b"{\"version\": ")]
